@@ -12,9 +12,9 @@ CLAIMS = {
         design_ref="§5 C01", technique="Lean 4 theorem over executable model + differential correspondence + built-in shadow oracle",
         note=COMMON_NOTE + "Backend content compared as parsed data; Redis/MongoDB/Zarr through fakes."),
     "C02": dict(
-        text="Obligation C02_reads_table (decide over the regenerated API table: every read method loads first) and theorem C02_reads_load_first (every read is answered from the merge of the backend's current content); C02_merge_post: whenever _update(data) returns normally - for EVERY in-memory tree and EVERY data with unique keys, any depth - the merged tree has exactly the content of the data (same structure, identical scalar constructors, same key sets), incl. positions that became null, a scalar or the other container kind (mutual induction over the dict loop and list loop); C02_load_reflects_backend lifts it to objects. Handle attachment across reloads is exercised by correspondence with outside rewrites at random positions and by the shadow oracle's attachment rule.",
+        text="Obligation C02_reads_table (decide over the regenerated API table: every read method loads first) and theorem C02_reads_load_first (every read is answered from the merge of the backend's current content); C02_merge_post: whenever _update(data) returns normally - for EVERY in-memory tree and EVERY data with unique keys, any depth - the merged tree has exactly the content of the data (same structure, identical scalar constructors, same key sets), incl. positions that became null, a scalar or the other container kind (mutual induction over the dict loop and list loop); C02_load_reflects_backend lifts it to objects. C02_handle_stays_attached (SC/Lemmas/Attach.lean): for valid data and ANY path along which memory and data hold containers of the same kind, the merge does not raise, the node at the path keeps its identity (the user's handle is still the object in the tree) and its content is the data at that path - induction over the path through the dict and list loops, using 'merging valid data raises at most the ValueError of a root kind mismatch' (mutual induction); C02_load_keeps_handles lifts it to objects. Also exercised by correspondence with outside rewrites at random positions and by the shadow oracle's attachment rule.",
         design_ref="§5 C02", technique="Lean 4 theorem + decide over generated table + differential correspondence with outside writers",
-        note=COMMON_NOTE + "Handle attachment (which retained children stay in the tree) is validated by correspondence, not stated as a theorem."),
+        note=COMMON_NOTE + "Detachment (a handle whose position was reassigned, removed or changed kind stops following the tree) is validated by correspondence and the shadow oracle, not stated as a theorem."),
     "C03": dict(
         text="Theorems C03_{dict,list}_{mutators,reads}_refine_builtin: every plain dict/list method the library forwards to (incl. all slice forms, negative/out-of-range indices, comparisons with TypeError cases) commutes with forgetting child identities, i.e. equals the built-in operation on plain content, for all sizes and arguments; C03_error_leaves_unchanged_*. The built-in semantics functions (SC/Builtin.lean) are themselves diffed against real dict/list through the three-way oracle.",
         design_ref="§5 C03", technique="Lean 4 naturality theorems + three-way differential (real class / model / built-in)",
